@@ -284,6 +284,9 @@ func (conn *Conn) recv() {
 			})
 		}
 	}
+	// Responses that were completely received before the read failed are still
+	// delivered: drain the decode queue before failing what is left.
+	pipeline.Close()
 	conn.mutex.Lock()
 	conn.shutdown = true
 	if err == io.EOF {
@@ -309,7 +312,6 @@ func (conn *Conn) recv() {
 	if conn.readStream != nil {
 		conn.readStream.Close()
 	}
-	pipeline.Close()
 }
 
 func (conn *Conn) read(ctx *Context, async bool) {
